@@ -124,4 +124,17 @@ theorem readings_differ_witness :
     abspath "/a//../b".toUTF8.toList ≠ collapse (Rfc3986.removeDotSegments "/a//../b".toUTF8.toList) := by
   decide +kernel
 
+
+/-- **the last link to RFC 3986 §5.2.4**: the path `join` computes for a relative-path reference — `abspath` of
+    base path, "/../", reference path, with the leading slash — is `remove_dot_segments` of that text with its
+    slash runs collapsed (`abspath_eq_rfc`, C11); by `parent_trick` / `join_relative_path_eq_merge` that text and
+    the RFC 5.2.3 merge have the same segment stack. -/
+theorem join_path_eq_rfc (P R : Bytes) (hP : startsWith P [0x2F] = true) :
+    normFix (abspath (P ++ [0x2F, 0x2E, 0x2E, 0x2F] ++ R)) =
+      Rfc3986.removeDotSegments (collapse (P ++ [0x2F, 0x2E, 0x2E, 0x2F] ++ R)) := by
+  apply abspath_eq_rfc
+  cases P with
+  | nil => simp [startsWith] at hP
+  | cons a P => simpa [startsWith] using hP
+
 end Httoop.Uri
